@@ -22,7 +22,7 @@ ASSUMPTIONS = [
     "the sequential models Parser.v / Receiver.v / ChanSeq.v speak for the code: checked by K-chanseq on every run (oversize stream included)",
     "CPython's int() digit limit is the default 4300 (sys.get_int_max_str_digits()); checked at run time",
     "split_uri on bracketed IPv6 authorities is not modelled: the totality theorem is stated as 'never escapes, never out of fuel' (unmodelled is a modelling gap, the search covers such targets on the real code)",
-    "the error response itself (ErrorTask, Error.to_response) is checked on the real code by the search (P3), not proved",
+    "the error response itself: proved by composition with C03's frame theorems over Model/Task.v (C06_error_response_wf, tie: K-task in checks/C03.py; the tag -> class table is tied by K-chanseq/K-parse comparing class code and message of the real error object, the (code, reason) pairs are regenerated from utilities.py by the GenTables translator) and checked on the real code by the search (P3)",
     "channel_request_lookahead = 0 for 'stops consuming within one read' (DESIGN.md section 8)",
 ]
 
@@ -31,7 +31,7 @@ MODEL_VO = ["Lib/PyBytes.vo", "Gen/GenRegex.vo", "Model/Receiver.vo", "Model/Url
 
 
 def run(ctx):
-    ctx.translate({"GenRegex"})
+    ctx.translate({"GenRegex", "GenTables"})
     ctx.gate()
     props_ok, failing, log = ctx.props()
     ctx.build(list(MODEL_VO))
